@@ -26,3 +26,15 @@ def extend(claim, NA):
           'Bounded solver-based check: the real _download_snapshot_threadsafe traced by CrossHair+z3 with SYMBOLIC cache entries (any bytes <=3, any proper prefix of the content) and symbolic wrong downloads; result must equal the cache-less result. Plus a solver-exhausted vector of command histories x cache sharing x cache-file corruption comparing cached and cache-less clients on the real stack.',
           'hash idealised as injective in K1-K3; histories of 2 free commands + 1 delete by 3 users.',
           'symbolic execution with symbolic cache bytes (CrossHair+z3) + solver-exhausted history/corruption vectors', '3/C18')
+    claim('C06',
+          'Bounded solver-based check: _instantiate_key with a symbolic password and _decrypt_snapshot_body with symbolic key relations traced under CrossHair+z3 with idealised crypto; access matrix (ownership set x viewer x extra command), every (key,password) pair and the delete/clean state vector exhausted by the solver over the real command bodies with real crypto.',
+          'strength of scrypt/AEAD outside the claim; 3 users (owner, shared, independent); states up to 2x2 quick / 3x3 thorough.',
+          'symbolic execution of key/snapshot decryption kernels (CrossHair+z3) + solver-exhausted access/state vectors on real commands', '3/C06')
+    claim('C07',
+          'Bounded solver-based check: symbolic-digest injectivity and family separation of storage names (CrossHair+z3), plus solver-exhausted vectors of (data set, argument orders, users, concurrency) and of 3-snapshot histories over the real snapshot command with an upload-counting backend.',
+          'crash-free histories; 4 data sets with shared/equal-size/repeated/identical content; chunk boundaries themselves are C10/C11.',
+          'symbolic execution of name derivation (CrossHair+z3) + solver-exhausted snapshot vectors with upload counting', '3/C07')
+    claim('C20',
+          'Solver-based check of the real code: the limiter methods are translated from the current AST into z3 real arithmetic; an inductive step with symbolic limit/debt/bytes/latency (unsat), a K-step BMC over all windows, the commands\' chunk-size expressions over unbounded integers, and a two-stream model whose sat model (aggregate 2L) is the recorded known finding F9; transparency by CrossHair with symbolic bytes/offsets.',
+          'floats as reals; sleep overshoot <= 0.01 s; multi-step queries for L in {4,1000,2^20,10^9}; L<4 outside; F9 (several overlapping streams) is a known finding.',
+          'Python AST -> SMT (z3 reals) inductive step + bounded model checking; CrossHair for transparency', '3/C20')
